@@ -115,6 +115,14 @@ func runC14(e *core.Env) {
 		}
 		r := core.NewRand(e.Seed, 14, uint64(i))
 		d := gen.Document(r, gen.Opts{MaxRecs: 6, MinRecs: 1, MaxEntries: 5, Unicode: r.Chance(1, 3), Hostile: r.Chance(1, 4), OpenRanges: 1, Tags: 2, MaxHours: 20})
+		if core.Hash64("c14-literal-values", fmt.Sprint(e.Seed, i))%20 == 0 {
+			// values are compared literally: characters that mean something to pattern matchers, next to values such a pattern would match
+			extra := "1000-01-01\n    1h #call=\"Why?\"\n    2h #call=\"Why!\"\n    3h #ref=\"[a]\"\n    4h #ref=a\n    5h #w=\"x*\"\n    6h #w=xyz\n    7h #p='a\\b'\n    8h #p=ab\n    9h #re=\"a.c\"\n    10h #re=abc\n    11h #v=\"^a$\"\n    12h #v=a\n    13h #pct=\"100%\"\n    14h #pct=\"100_\"\n"
+			if x, ok := withAppended(d, extra); ok {
+				d = x
+				e.Count("files_with_pattern_like_tag_values", 1)
+			}
+		}
 		e.Begin(i, []byte(d.Text))
 		c14Accounting(e, r, d)
 		e.End(i)
